@@ -34,6 +34,9 @@ CHECKS = {
  'C18': dict(level='proof', ref='§6 C18', technique='Lean 4 round-trip theorem (prompt-order reader after writer) on a token-level model + line-by-line text correspondence',
    text='Lean theorem: readAntenna (writeAntenna m ++ rest) = some (m, rest) for every model in normal form — any number of media (linear/circular, radials), wires, sources (pulse, magnitude, phase in degrees) and loads (impedance or S-parameter with any order); emulation of tapered wires/arcs/helices yields one single-segment wire per segment. Tied by comparing Mininec.as_basic_input line by line with the rendered model output for generated command lines (all structure kinds, media forms, load kinds, versions 9/12/13); an independent Python reader checks the semantic content of the real text.',
    note=TB + 'numbers are opaque in the model (rendered by Python % with the format recorded in the token); the projection Mininec -> BASIC model (what "the same antenna" means) is harness code; the BASIC prompt order is read off the comments in the source.'),
+ 'C15': dict(level='proof', ref='§6 C15', technique='Lean 4 round-trip theorems on the option sub-languages + real write/re-read round trip on generated command lines',
+   text='Lean theorems for lists of any length: sources (pulse / voltage options paired by position, defaults) round-trip; lumped loads in definition order come back with exactly their attachments and every written --attach-load number refers to its load; the reader always yields class-sorted loads; the attachment forms chosen by the writer (N,all / N,all,tag / N,pulse) denote exactly the attached pulses with multiplicity (permutation theorem); the written complex load value parses back for either sign; --taper-wire names the tapered wire. Each of the five repaired writer defects is refuted for the former rule by a kernel-checked witness. Tied by comparing the structure of Mininec.as_cmdline with the Lean writer on the projected model and by the real round trip main -> as_cmdline -> main (objects, sources, loads per pulse, media, feed impedance, second-generation option set).',
+   note=TB + 'partial: tags of objects, transformation order, media and numeric formatting (%g/%.11g through float()) have no theorem; they are covered by the real round trip on the implementation (numbers compared at 2e-6).'),
 }
 NOT_YET = {}
 
